@@ -34,6 +34,7 @@ func runC05(w *core.World, r *core.Report) {
 	r.Rule("R4", "every moving handler calls Vm.Reset on every success path after the move")
 	r.Rule("R5", "RELOAD: invoker -> Update -> Page.Map on the same symbol")
 	r.Rule("R6", "capacity oracle result 0 means failure only under len(value) > 0")
+	r.Rule("R7", "a result larger than its limit is never stored: C09 R1/R2 (no truncated length in a comparison; limit and capacity tests on every success path of Add/Update)")
 
 	inv := externalInvokers(w)
 	if len(inv) == 0 {
@@ -261,6 +262,9 @@ func runC05(w *core.World, r *core.Report) {
 		}
 	}
 	r.Floor("R6", "capacity oracle call sites", n6, 2)
+
+	// ---- R7 -----------------------------------------------------------------------------------
+	checkCacheLimits(w, r, capacityOracles(w), add, upd, "R7", "R7")
 }
 
 func forwardVals(v ssa.Value) []ssa.Value {
